@@ -255,3 +255,14 @@ def run(chk, R, tier, seed):
                     subs.append(unit_pair_sub(chk, ww, wid, s1, s2, planj))
         cases.append(world_program(chk, plan, subs, wid))
     run_cases(chk, R, cases, preload=("quantity",))
+
+
+_run_generated = run
+
+
+def run(chk, R, tier, seed):          # noqa: F811
+    _run_generated(chk, R, tier, seed)
+    from .. import suitemon
+    if suitemon.wanted(tier):
+        # the repository's own tests as one more workload (DESIGN 9.7)
+        suitemon.suite_stage(chk, R, "C04")
